@@ -18,6 +18,7 @@ from vf.sym import Engine, Inconclusive, SR, z3bool
 LEVEL = 'model_checking'
 K = 4
 RATIO = 32
+RATIO_DIRECTED = 4   # directed histories: the unit cell itself is (nearly) inside the window
 
 # root grids: cell widths are multiples of ONE symbolic width w, slab heights multiples of ONE symbolic
 # height tau - the shape of every shipped curve (unit / pi square: equal sides; L-shape: sides 1,1,2,2,1,1;
@@ -57,13 +58,37 @@ def run_one(eng, M, gridname, sigma, hist_len, fail, concrete=None):
         eng.assume(w > 0)
         eng.assume(tau > 0)
         # bounded parabolic ratio of the unit cell => bounded number of sweeps
-        eng.assume(w**sigma * RATIO >= tau)
-        eng.assume(w**sigma <= RATIO * tau)
+        ratio = RATIO_DIRECTED if isinstance(hist_len, (tuple, list)) else RATIO
+        eng.assume(w**sigma * ratio >= tau)
+        eng.assume(w**sigma <= ratio * tau)
         xs, ts = cumul(sm, w), cumul(tm, tau)
         xs[0], ts[0] = SR.const(0), SR.const(0)
         mesh = M.Mesh(glue_space=glued, initial_space_mesh=xs, initial_time_mesh=ts)
         mesh._vf = dict(ts=ts, xs=xs, n_t=n_t, n_x=n_x, glued=glued)
     hist = []
+    if isinstance(hist_len, (tuple, list)):
+        # point-directed history (what adaptive refinement towards a singular corner produces): ks space bisections
+        # and kt time bisections of the leaf that contains a point just inside a corner of a root cell
+        _, corner, ks, kt, order = hist_len
+        hist = ['directed', corner, ks, kt, order]
+        from fractions import Fraction as F
+        eps = F(1, 2**30)
+        root_j, root_i, top, right = corner
+        pt = (root_j + (1 - eps if top else eps), root_i + (1 - eps if right else eps))
+
+        def leaf_at():
+            for e in mesh.leaf_elements:
+                r = meshsym.rect_of(mesh, e)
+                S = 2**40
+                if r.t0 <= pt[0] * S < r.t1 and r.x0 <= pt[1] * S < r.x1:
+                    return e
+            raise AssertionError('no leaf at the corner point')
+        seq = [1] * ks + [0] * kt if order == 'space-first' else ([0] * kt + [1] * ks if order == 'time-first' else
+                                                                  [v for pair in zip([1] * max(ks, kt), [0] * max(ks, kt))
+                                                                   for v in pair][:ks + kt])
+        for ax in seq:
+            mesh.refine_axis(leaf_at(), ax)
+        hist_len = 0
     for step in range(hist_len):
         leaves = list(mesh.leaf_elements)
         acts = [(i, op) for i in range(len(leaves)) for op in (0, 1)] + [(-1, 9)]
@@ -75,7 +100,12 @@ def run_one(eng, M, gridname, sigma, hist_len, fail, concrete=None):
     ref_before, _ = meshsym.ref_of(mesh)
     mesh.refine_grading(sigma=sigma, K=K)
     # postconditions
-    ref_after, lmap = meshsym.check_state(eng, mesh, fail, linear=True)
+    # the fresh-point tiling query is posed for moderate meshes; beyond that tiling is decided on the reference
+    # rectangles (exact integers) together with the ancestry verdict
+    big = len(mesh.leaf_elements) > 48
+    ref_after, lmap = meshsym.check_state(eng, mesh, fail, linear=True, want_tiling=not big, want_vertices=not big)
+    if big and not ref_after.is_tiling():
+        fail('tiling:ref', 'Ref rectangles of the leaves do not tile the index cylinder', None)
     claims, seen = [], set()
     for e in mesh.leaf_elements:
         k = (SR.lift(e.h_t).key(), SR.lift(e.h_x).key())
@@ -110,8 +140,10 @@ def replay(rp):
 
     with Engine(timeout_ms=30000) as eng:
         try:
-            run_one(eng, M, rp['grid'], rp['sigma'], len(rp['actions']), fail,
-                    concrete=dict(w=w, tau=tau, actions=rp['actions']))
+            hl = tuple(rp['actions']) if rp['actions'] and rp['actions'][0] == 'directed' else len(rp['actions'])
+            if isinstance(hl, tuple):
+                hl = (hl[0], tuple(hl[1]), hl[2], hl[3], hl[4])
+            run_one(eng, M, rp['grid'], rp['sigma'], hl, fail, concrete=dict(w=w, tau=tau, actions=rp['actions']))
         except Exception as e:
             found.append('exception:' + type(e).__name__)
     return bool(found)
@@ -142,7 +174,7 @@ def worker(case):
             elif pr.status == 'ok':
                 hist, nleaf = pr.value
                 res['part_extra']['states'] += 1
-                res['part_extra']['transitions'] += hist_len + 1
+                res['part_extra']['transitions'] += (hist_len if isinstance(hist_len, int) else hist_len[2] + hist_len[3]) + 1
                 res['nontrivial'] += 1
                 if len(res['samples']) < 1:
                     _, m = eng.feasible(True)
@@ -150,7 +182,8 @@ def worker(case):
                                                example_grid={k: str(v) for k, v in eng.model_inputs(m).items()
                                                              if not k.endswith('!')}))
             for sig, what, model in cands:
-                acts = choices_to_actions(M, gridname, pr.choices, hist_len)
+                acts = (list(hist_len) if isinstance(hist_len, (tuple, list)) else
+                        choices_to_actions(M, gridname, pr.choices, hist_len))
                 tried = []
                 ok = False
                 models = []
@@ -212,12 +245,27 @@ def run(out):
                     cases.append((g, sigma, cfg['hist'], (c, ), out.seed))
             else:
                 cases.append((g, sigma, 0, (), out.seed))
+    # point-directed histories on the single-slab grids
+    quick = out.tier == 'quick'
+    dgrids = ['sq3g', 'L3g'] if quick else ['sq3g', 'sq4g', 'L3g', 'L4g', 'int2o']
+    depth = [(4, 6)] if quick else [(a, b) for a in range(0, 5) for b in range(0, 7) if a + b >= 3]
+    for g in dgrids:
+        sm, tm, glued = GRIDS19[g]
+        corners = [(0, i, top, right) for i in range(len(sm)) for top in (0, 1) for right in (0, 1)]
+        if quick:
+            corners = [c for c in corners if c[2] == 0]
+        for sigma in cfg['sigmas']:
+            for corner in corners:
+                for (ks, kt) in depth:
+                    for order in (('space-first', ) if quick else ('space-first', 'time-first', 'alternate')):
+                        cases.append((g, sigma, ('directed', corner, ks, kt, order), (), out.seed))
     results = report.pmap('checks.c19', 'worker', cases)
     for c, r in zip(cases, results):
-        report.merge_worker(out, r, part='%s sigma=%d' % (c[0], c[1]))
+        report.merge_worker(out, r, part='%s sigma=%d%s' % (c[0], c[1], '' if isinstance(c[2], int) else ' directed'))
     out.bounds = dict(grids={g: dict(space_cells_in_units_of_w=GRIDS19[g][0], slabs_in_units_of_tau=GRIDS19[g][1],
-                                     glued=GRIDS19[g][2]) for g in cfg['grids']}, history_before_grading=cfg['hist'], sigma=cfg['sigmas'], K=K,
-                      root_ratio='w, tau symbolic with 1/%d <= w^sigma/tau <= %d (bounds the sweeps)' % (RATIO, RATIO),
+                                     glued=GRIDS19[g][2]) for g in cfg['grids']}, history_before_grading=cfg['hist'],
+                      directed_histories='ks <= 4 space and kt <= 6 time bisections of the leaf at a corner point of a root cell (%s)' % ('subset' if quick else 'all with ks + kt >= 3, three orders'), sigma=cfg['sigmas'], K=K,
+                      root_ratio='w, tau symbolic with 1/%d <= w^sigma/tau <= %d (bounds the sweeps); 1/%d .. %d for the directed histories' % (RATIO, RATIO, RATIO_DIRECTED, RATIO_DIRECTED),
                       decisions_per_path=6000)
     out.outside = ['sigma = 1.5 (fractional power)', 'unit-cell ratios beyond the stated window',
                    'root grids whose cell widths are not in the ratios of a shipped curve (1:1 and 1:2)', 'longer histories',
